@@ -8,6 +8,7 @@ HERE = os.path.dirname(os.path.abspath(__file__))
 OUT = os.path.join(HERE, "..", "cmd", "fpcheck", "tc_gen.go")
 
 INT, STR, BYTES = ("int",), ("str",), ("bytes",)
+F64, TIME = ("f64",), ("time",)   # float64 (halves; the marker nil = negative zero) and time.Time (rank in a table of instants)
 
 
 def opt(t): return ("opt", t)
@@ -38,6 +39,8 @@ TYPES += [hl(*([ptr(INT)] * n)) for n in (2, 3, 5)]
 # fast path that misjudges such elements as plain would copy them shallowly
 TYPES += [sl(opt(ptr(INT))), seq(opt(sl(INT))), sl(opt(sl(INT))), seq(hl(sl(INT), INT)), sl(hl(ptr(INT))), seq(tup(ptr(INT), INT)),
           sl(opt(gm(INT))), seq(opt(ptr(sl(INT)))), gm(opt(sl(INT))), ptr(opt(sl(INT))), opt(hl(sl(INT)))]
+# floats (two zeros) and instants far from 1970
+TYPES += [F64, opt(F64), sl(F64), tup(F64, INT), TIME, opt(TIME), sl(TIME), tup(TIME, INT)]
 # maps whose key type has values no lookup can find (NaN)
 TYPES += [fk(INT), fk(sl(INT)), fk(ptr(INT)), sl(fk(sl(INT)))]
 
@@ -57,6 +60,8 @@ def gotype(t):
     if k == "int": return "int"
     if k == "str": return "string"
     if k == "bytes": return "[]byte"
+    if k == "f64": return "float64"
+    if k == "time": return "time.Time"
     if k == "opt": return "fp.Option[%s]" % gotype(t[1])
     if k == "seq": return "fp.Seq[%s]" % gotype(t[1])
     if k == "slice": return "[]%s" % gotype(t[1])
@@ -87,6 +92,10 @@ def inst(cls, t):
         return {"eq": "eq.String", "hash": "hash.String", "ord": "ord.Given[string]()", "clone": "clone.Given[string]()"}[cls]
     if k == "bytes":
         return {"eq": "eq.Bytes", "hash": "hash.Bytes", "ord": None, "clone": "clone.Slice(clone.Given[byte]())"}[cls]
+    if k == "f64":
+        return {"eq": "eq.Given[float64]()", "hash": "hash.Number[float64]()", "ord": "ord.Given[float64]()", "clone": "clone.Given[float64]()"}[cls]
+    if k == "time":
+        return {"eq": "eq.Time", "hash": None, "ord": "ord.Time", "clone": "clone.Given[time.Time]()"}[cls]
     if k == "opt": return "%s.Option(%s)" % (P, sub[0])
     if k == "seq": return "%s.Seq(%s)" % (P, sub[0])
     if k == "slice": return "%s.Slice(%s)" % (P, sub[0])
@@ -133,8 +142,9 @@ def emit():
     w("//go:build verif\n")
     w("// Code generated by harness/gen/typeclass_gen.py, DO NOT EDIT.\n")
     w("package main\n")
-    w('import (\n\t"math"\n\t"sort"\n\n\t"github.com/csgura/fp"\n\t"github.com/csgura/fp/clone"\n\t"github.com/csgura/fp/eq"\n\t"github.com/csgura/fp/hash"\n\t"github.com/csgura/fp/hlist"\n\t"github.com/csgura/fp/immutable"\n\t"github.com/csgura/fp/lazy"\n\t"github.com/csgura/fp/ord"\n)\n')
+    w('import (\n\t"math"\n\t"sort"\n\n\t"github.com/csgura/fp"\n\t"github.com/csgura/fp/clone"\n\t"github.com/csgura/fp/eq"\n\t"github.com/csgura/fp/hash"\n\t"github.com/csgura/fp/hlist"\n\t"github.com/csgura/fp/immutable"\n\t"github.com/csgura/fp/lazy"\n\t"github.com/csgura/fp/ord"\n\t"time"\n)\n')
     w("var _ = immutable.Map[int, int]\nvar _ = hlist.Empty\nvar _ = lazy.Done[int]\n")
+    w("// instants in chronological order, most of them outside the range an int64 of nanoseconds since 1970 can hold\nvar tcTimes = []time.Time{{}, time.Date(1200, 3, 1, 0, 0, 0, 0, time.UTC), time.Date(1700, 1, 1, 0, 0, 0, 0, time.UTC), time.Date(2000, 1, 1, 0, 0, 0, 0, time.UTC),\n\ttime.Date(2000, 1, 1, 0, 0, 0, 1, time.UTC), time.Date(2300, 1, 1, 0, 0, 0, 0, time.UTC), time.Date(9000, 1, 1, 0, 0, 0, 0, time.UTC)}\n")
     for t in allt:
         i, g, k = tid(t), gotype(t), t[0]
         # ---- mk: abstract value -> Go value ----
@@ -145,6 +155,10 @@ def emit():
             w("\treturn tcString(a.Cs)")
         elif k == "bytes":
             w("\tif a.Nil {\n\t\treturn nil\n\t}\n\treturn tcBytes(a.Cs)")
+        elif k == "f64":
+            w("\tif a.Nil {\n\t\treturn math.Copysign(0, -1)\n\t}\n\treturn float64(a.N) / 2")
+        elif k == "time":
+            w("\treturn tcTimes[a.N]")
         elif k == "opt":
             w('\tif a.T == "none" {\n\t\treturn fp.None[%s]()\n\t}\n\treturn fp.Some(mk_%s(a.V, pl))' % (gotype(t[1]), tid(t[1])))
         elif k in ("seq", "slice"):
@@ -175,6 +189,10 @@ def emit():
             w('\treturn &AV{T: "str", Cs: tcCodes([]byte(v))}')
         elif k == "bytes":
             w('\treturn &AV{T: "bytes", Cs: tcCodes(v), Nil: v == nil}')
+        elif k == "f64":
+            w('\treturn &AV{T: "int", N: int(v * 2)}')
+        elif k == "time":
+            w('\tfor i, x := range tcTimes {\n\t\tif x.Equal(v) {\n\t\t\treturn &AV{T: "int", N: i}\n\t\t}\n\t}\n\treturn &AV{T: "int", N: -1}')
         elif k == "opt":
             w('\tif v.IsEmpty() {\n\t\treturn &AV{T: "none"}\n\t}\n\treturn &AV{T: "some", V: av_%s(v.Get())}' % tid(t[1]))
         elif k in ("seq", "slice"):
@@ -214,6 +232,7 @@ def emit():
     w('\ttcRegistry["wrap_int_#field"] = tcType[tcWrap[int]]{mk: mk_wrap_int_, av: av_wrap_int_, eq: eq.ContraMap(eq.Given[int](), func(w tcWrap[int]) int { return w.X }), ord: ord.GivenField(func(w tcWrap[int]) int { return w.X })}')
     w('\ttcRegistry["int#new"] = tcType[int]{mk: mk_int, av: av_int, eq: eq.New(func(a, b int) bool { return a == b }), ord: ord.New(eq.Given[int](), func(a, b int) bool { return a < b }), hash: hash.New(eq.Given[int](), func(a int) uint32 { return uint32(a) })}')
     w('\ttcRegistry["int#cmp"] = tcType[int]{mk: mk_int, av: av_int, eq: eq.Given[int](), ord: ord.FromCompare(func(a, b int) int {\n\t\tif a < b {\n\t\t\treturn -1\n\t\t}\n\t\tif a > b {\n\t\t\treturn 1\n\t\t}\n\t\treturn 0\n\t})}')
+    w('\ttcRegistry["int#cmpmag"] = tcType[int]{mk: mk_int, av: av_int, eq: eq.Given[int](), ord: ord.FromCompare(func(a, b int) int { return 3 * (a - b) })}')
     w("}\n")
     open(OUT, "w").write("\n".join(o))
     print("generated tc_gen.go:", len(allt), "types,", len(TYPES) + 5, "registry entries")
